@@ -7,6 +7,7 @@ package media
 import (
 	"errors"
 	"strings"
+	"sync"
 	"sync/atomic"
 	"time"
 
@@ -62,7 +63,8 @@ type Stream struct {
 	attrs                map[string]string // 流属性
 	multicast            Multicastable
 	hls                  Hlsable
-	logger               *xlog.Logger // 日志对象
+	joinLocks            [2]sync.Mutex // 按包类型：使"缓存快照+注册消费者"与"更新缓存+广播"互斥
+	logger               *xlog.Logger  // 日志对象
 	Video                codec.VideoMeta
 	Audio                codec.AudioMeta
 }
@@ -210,9 +212,11 @@ func (s *Stream) WriteRtpPacket(packet *rtp.Packet) error {
 
 	atomic.AddUint64(&s.size, uint64(packet.Size()))
 
+	s.joinLocks[RTPPacket].Lock()
 	keyframe := s.cache.CachePack(packet)
 	verifhook.Point("media.write.cached", s, packet)
 	s.consumptions.SendToAll(packet, keyframe)
+	s.joinLocks[RTPPacket].Unlock()
 	verifhook.Point("media.write.sent", s, packet)
 
 	s.rtpDemuxer.WriteRtpPacket(packet)
@@ -239,9 +243,11 @@ func (s *Stream) WriteFlvTag(tag *flv.Tag) error {
 		return statusErrors[status]
 	}
 
+	s.joinLocks[FLVPacket].Lock()
 	keyframe := s.flvCache.CachePack(tag)
 	verifhook.Point("media.flvwrite.cached", s, tag)
 	s.flvConsumptions.SendToAll(tag, keyframe)
+	s.joinLocks[FLVPacket].Unlock()
 	verifhook.Point("media.flvwrite.sent", s, tag)
 	return nil
 }
@@ -286,11 +292,16 @@ func (s *Stream) startConsume(consumer Consumer, packetType PacketType, extra st
 	}
 
 	verifhook.Point("media.join.begin", s, consumer)
+	// 快照缓存与注册必须对发布者原子：否则其间发布的包既不在快照里也收不到直播(丢包)，
+	// 或者已进缓存又被广播一次(重复)
+	joinLock := &s.joinLocks[packetType&1]
+	joinLock.Lock()
 	if useGopCache {
 		c.sendGop(cache) // 新消费者，先发送gop缓存
 	}
 	verifhook.Point("media.join.snapshotted", s, consumer)
 	cs.Add(c)
+	joinLock.Unlock()
 	verifhook.Point("media.join.registered", s, consumer)
 
 	go c.consume()
